@@ -1,5 +1,5 @@
 (* C03 -- async mutex: no lost wake-up, including cancellation and waker replacement. *)
-From FI Require Import Base Mutex MutexSpec MutexProofs.
+From FI Require Import Base Mutex MutexSpec MutexProofs MutexMonProofs.
 
 (* After every contract-respecting history, of any length and over any number of lock
    futures: if the mutex is free while lock futures are pending, at least one pending
@@ -43,6 +43,15 @@ Example C03_witness :
   wk_woken (wk_track (trace (init 3 false) ops) 2) = true.
 Proof. vm_compute. repeat split; reflexivity. Qed.
 
+(* The boolean monitor the check evaluates on the real crate's traces (after every call: free
+   and somebody pending => a pending future - fair: the oldest - holds a wake-up through the
+   waker of its latest poll) holds on every contract-respecting history of the model. *)
+Theorem C03_monitor : forall k b ops,
+  legal_run (init k b) ops ->
+  mm_good (fold_left (mon03_step b) (trace (init k b) ops) mmon0) = true.
+Proof. exact mon03_holds. Qed.
+
 Print Assumptions C03_woken_when_free.
 Print Assumptions C03_pending_is_arrivals.
 Print Assumptions C03_progress.
+Print Assumptions C03_monitor.
